@@ -196,7 +196,7 @@ class RationalPolynomial:
 
     def __add__(self, other):
         if not isinstance(other, self.__class__):
-            other = self.__class__(other)
+            other = self.__class__([[other]])
 
         if other == 0: return self
         if self == 0: return other
